@@ -324,6 +324,44 @@ pub fn run(c: &Sexp) -> Sexp {
                 let w = block(serve_ax(req));
                 Lst(vec![Num(w.status as i64), Sexp::from_bytes(&w.body())])
             }
+            8 => {
+                // a browser form (Accept: text/html) calling a function whose error type has a
+                // binary encoder: the redirect URL must carry that error
+                use server_fn::error::ServerFnUrlError;
+                let (s, n) = (text(c.at(2)), c.at(3).num() as u32);
+                let q = AxMw { s: s.clone(), n };
+                let query = <AxMw as server_fn::codec::IntoReq<GetUrl, LoopReq, AppErrCbor>>::into_req(
+                    q, AxMw::PATH, "application/json").map(|r| r.uri).unwrap_or_default();
+                let referer = crate::errs::url_string(c.at(4), c.at(5), c.at(6));
+                let req = http::Request::builder()
+                    .method("GET")
+                    .uri(&query)
+                    .header("accept", "text/html,application/xhtml+xml")
+                    .header("referer", &referer)
+                    .body(Body::empty())
+                    .unwrap();
+                let w = block(serve_ax(req));
+                let loc = w.header("location").map(|l| String::from_utf8_lossy(&l).into_owned());
+                let mut back = vec![];
+                if let Some(Ok(u)) = loc.as_deref().map(url::Url::parse) {
+                    let mut p_back = None;
+                    let mut e_back = None;
+                    for (k, v) in u.query_pairs() {
+                        if k == "__path" {
+                            p_back = Some(v.to_string());
+                        } else if k == "__err" {
+                            e_back = Some(v.to_string());
+                        }
+                    }
+                    back.push(Lst(p_back.iter().map(|p| Sexp::from_str(p.trim_end_matches(|c: char| c.is_ascii_digit()))).collect()));
+                    back.push(Lst(e_back.iter().map(|v| ServerFnUrlError::<AppErrCbor>::decode_err(v).sexp()).collect()));
+                }
+                let direct = match block(ax_mw(s, n)) {
+                    Ok(s) => Lst(vec![Num(0), Sexp::from_str(&s)]),
+                    Err(e) => Lst(vec![Num(1), e.sexp()]),
+                };
+                Lst(vec![Num(w.status as i64), Lst(back), direct, s_opt(loc.map(|l| l.into_bytes()))])
+            }
             7 => {
                 // the registry of the backend: every axum function is listed once, an unknown
                 // route is answered with 400
